@@ -1,9 +1,64 @@
 """C13 - assignment, destructuring and augmented assignment store what Python stores."""
 import random
 
-from harness import common, gen_assign, propkit
+import ast
 
-VFILES = ["theories/Namespace.v", "theories/Lower.v", "theories/Unpack.v", "theories/UnpackProof.v", "theories/AugOps.v"]
+from harness import common, gen_assign, propkit, sexp
+
+VFILES = ["theories/Namespace.v", "theories/Lower.v", "theories/Unpack.v", "theories/UnpackProof.v", "theories/UnpackNested.v",
+          "theories/AugOps.v"]
+
+
+def _value(rng, shape, perturb):
+    """a nested list matching `shape` (or, with `perturb`, deliberately not matching it somewhere)"""
+    items = []
+    for s in shape:
+        if s == "n":
+            items.append(rng.randint(0, 99))
+        elif s == ("*",):
+            items.extend(rng.randint(0, 99) for _ in range(rng.randint(0, 3)))
+        else:
+            items.append(_value(rng, s, perturb))
+    if perturb and rng.random() < 0.25:
+        k = rng.random()
+        if k < 0.4 and items:
+            items.pop(rng.randrange(len(items)))
+        elif k < 0.8:
+            items.insert(rng.randrange(len(items) + 1), rng.randint(0, 99))
+        else:
+            return rng.randint(0, 99)            # an atom where a sequence is expected: TypeError
+    return items
+
+
+def _vsexp(v):
+    if isinstance(v, (list, tuple)):
+        return "(s" + "".join(" " + _vsexp(x) for x in v) + ")"
+    return f"(a {v})"
+
+
+def nested_reference_cases(rng, n):
+    """(pattern text, value, command line, expected answer): CPython's own unpacking is the expectation for BOTH the
+    reference semantics UnpackNested.bind and the in-order run of the stores the converter model emits"""
+    out = []
+    while len(out) < n:
+        names = []
+        pat, shape = gen_assign.gen_pattern(rng, 3, names)
+        if len(shape) == 1:
+            pat += ","
+        value = _value(rng, shape, perturb=rng.random() < 0.35)
+        if not isinstance(value, list):
+            continue
+        g = {"V": value}
+        try:
+            exec(f"{pat} = V", g)
+            binds = "(" + " ".join(f"({sexp.ident(nm)} {_vsexp(g[nm])})" for nm in names) + ")"
+            want = f"(ok (({binds}) ({binds})))" if names else "(ok ((()) (())))"
+        except (ValueError, TypeError):
+            want = "(ok (() "          # Python refuses: the reference semantics must refuse too; what the emitted stores do
+                                       # with a value Python refuses (no length check: `v0, = [1, 2]`) is outside the theorem
+        target = ast.parse(f"{pat} = V").body[0].targets[0]
+        out.append((pat, value, f"(unpack-nested {sexp.expr(target)} {_vsexp(value)})", want))
+    return out
 
 
 def run(chk, build, replay=None):
@@ -11,8 +66,9 @@ def run(chk, build, replay=None):
     chk.trusted += [
         "C13: Unpack.v's py_index/py_slice/unpack are reference semantics written from the language reference; they are "
         "validated by executing every generated program under CPython (direct oracle), not verified",
-        "theorems cover flat patterns at module level for all lengths/values; nested patterns, other placements and "
-        "attribute/subscript/slice targets are covered by AST correspondence + differential execution only",
+        "theorems cover flat AND nested patterns (any depth) of names at module level for all lengths/values (UnpackNested: "
+        "values are finite nested sequences - one-shot iterators are materialised by tuple()); other placements and "
+        "attribute/subscript/slice targets inside patterns are covered by AST correspondence + differential execution only",
         "in-place methods returning NotImplemented are outside the proved object model",
     ]
     rng = random.Random(chk.seed * 31 + 13)
@@ -30,6 +86,21 @@ def run(chk, build, replay=None):
         n = 300 if chk.tier == "quick" else 4000
         for i in range(n):
             progs.append(gen_assign.destructure_program(rng)); keys.append(("destructure", i))
+    # the reference semantics of nested unpacking and the evaluator of the emitted stores, against CPython itself
+    cases = nested_reference_cases(rng, 400 if chk.tier == "quick" else 6000)
+    answers = common.model_eval([c[2] for c in cases])
+    agree = ok_binds = 0
+    for (pat, value, line, want), a in zip(cases, answers):
+        chk.note_case(("nested-ref", pat, repr(value)))
+        if a == want or (want == "(ok (() " and a.startswith(want)):
+            agree += 1
+            ok_binds += want != "(ok (() "
+        else:
+            chk.add_broken("correspondence", "UnpackNested.bind / UnpackNested.run disagree with CPython's unpacking",
+                           __import__("json").dumps({"pattern": pat, "value": value, "model": a[:400], "cpython": want[:400]}))
+            break
+    chk.coverage.setdefault("correspondence", {})["nested unpacking: reference semantics and store evaluator vs CPython"] = {
+        "cases": len(cases), "agree": agree, "successful_bindings": ok_binds, "rejected_by_python": agree - ok_binds}
     bad = propkit.lower_correspondence(chk, progs)
     propkit.oracle_exec(chk, progs, what="a target (or an alias) holds a different value than in the original program")
     chk.samples = [{"program": p[-400:]} for p in progs[-3:]] + [{"program": progs[0][-300:]}]
